@@ -6,6 +6,11 @@
 //!                              | `f c d m` (a new copy made by `clone_from`: a scratch value = clone of copy d,
 //!                                 reset to m-1 elements when m > 0, then `scratch.clone_from(&copy c)`; the scratch
 //!                                 value is appended as a new copy: it must be indistinguishable from `c c`)
+//!                              | `g c d n` (as `f`, but the scratch value = clone of copy d first goes through a
+//!                                 `reset(n)` with n >= 2^60 that must panic ('capacity overflow') and leave it
+//!                                 exactly as it was; then `scratch.clone_from(&copy c)`; again the same as `c c`)
+//! `reset` arguments in 2^32 .. 2^60 are refused by the executor (they would really allocate); n >= 2^60 asks for
+//! more than isize::MAX bytes and panics before any allocation.
 //! Output: per call its return value `T`/`F`/`N<k>`/`U`, followed by `[ p.. | sz.. ]` (hooked arrays of
 //! the touched copy) when they differ from the last arrays shown for that copy; a panicking call prints `P`
 //! (followed by the arrays of the touched copy if the call changed them before panicking) and the history goes
@@ -13,7 +18,8 @@
 //! of every copy.
 //! Cross-checks on entry points that have no return value of their own (only when the type implements Debug;
 //! the executor builds without it): the `{:?}` and `{:#?}` renderings after `reset(n)` equal those of
-//! `DSU::new(n)`; those of a clone / of the target of `clone_from` equal those of the source.  A failed
+//! `DSU::new(n)`; those of a clone / of the target of `clone_from` equal those of the source; a `reset`, `par` or
+//! `size` that panicked (the model: nothing written) left the renderings as they were.  A failed
 //! cross-check replaces the return value by a token starting with `X`, which no model accepts.
 //!
 //! Big mode (implementation-only search): `big <family> <n> <seed>` builds one DSU of n elements with an
@@ -73,6 +79,11 @@ fn show(out: &mut String, a: &(Vec<usize>, Vec<usize>)) {
     out.push_str(" ]");
 }
 
+/// a reset to n elements either is small enough to be harmless or is refused before any allocation
+fn reset_arg_ok(n: usize) -> bool {
+    n < (1usize << 32) || n >= (1usize << 60)
+}
+
 fn history(t: &[&str]) -> String {
     let n0: usize = p(t[1]);
     let mut copies: Vec<DSU> = vec![DSU::new(n0)];
@@ -86,7 +97,7 @@ fn history(t: &[&str]) -> String {
             "u" | "k" => (2, c),
             "p" | "s" | "r" => (1, c),
             "c" => (0, copies.len()),
-            "f" => (2, copies.len()),
+            "f" | "g" => (2, copies.len()),
             _ => {
                 eprintln!("harness: unknown op {}", kind);
                 std::process::exit(3)
@@ -95,6 +106,12 @@ fn history(t: &[&str]) -> String {
         let a: usize = if nargs >= 1 { p(t[i + 2]) } else { 0 };
         let b: usize = if nargs >= 2 { p(t[i + 3]) } else { 0 };
         i += 2 + nargs;
+        if (kind == "r" && !reset_arg_ok(a)) || (kind == "g" && b < (1usize << 60)) {
+            eprintln!("harness: refusing reset argument {}", if kind == "r" { a } else { b });
+            std::process::exit(3)
+        }
+        // calls that write nothing when they panic: the hidden state must stay as well
+        let before = if matches!(kind, "r" | "p" | "s") { dbg_of(&copies[c]) } else { None };
         let r: Option<String> = guarded(|| match kind {
             "u" => (if copies[c].un(a, b) { "T" } else { "F" }).to_string(),
             "k" => (if copies[c].check(a, b) { "T" } else { "F" }).to_string(),
@@ -115,6 +132,26 @@ fn history(t: &[&str]) -> String {
                 last.push(None);
                 (if ok { "U" } else { "Xdebug-of-clone-differs-from-source" }).to_string()
             }
+            "g" => {
+                let mut d = copies[a].clone();
+                let was = (arrays(&d), dbg_of(&d));
+                let refused = guarded(|| d.reset(b)).is_none();
+                let intact = (arrays(&d), dbg_of(&d)) == was;
+                d.clone_from(&copies[c]);
+                let ok = same_dbg(&d, &copies[c]);
+                copies.push(d);
+                last.push(None);
+                (if !refused {
+                    "Xreset-beyond-isize-max-bytes-returned"
+                } else if !intact {
+                    "Xrefused-reset-changed-the-value"
+                } else if !ok {
+                    "Xdebug-after-clone_from-differs-from-source"
+                } else {
+                    "U"
+                })
+                .to_string()
+            }
             _ => {
                 let mut d = copies[a].clone();
                 if b > 0 {
@@ -131,6 +168,9 @@ fn history(t: &[&str]) -> String {
             out.push(' ');
         }
         match r {
+            None if matches!(kind, "r" | "p" | "s") && dbg_of(&copies[c]) != before => {
+                out.push_str("Xdebug-changed-by-a-panicking-call")
+            }
             None => out.push('P'),
             Some(s) => out.push_str(&s),
         }
@@ -316,6 +356,14 @@ fn deep_lookups(d: &mut DSU, naive: &Naive, cnt: usize, ok: &mut bool) {
     }
 }
 
+/// a reset that cannot get its buffer must panic and leave the value (arrays and rendering) as it was
+fn refused_reset(d: &mut DSU, n: usize, ok: &mut bool) {
+    let was = (arrays(d), dbg_of(d));
+    if guarded(|| d.reset(n)).is_some() || (arrays(d), dbg_of(d)) != was {
+        *ok = false;
+    }
+}
+
 fn big(t: &[&str]) -> String {
     let fam = t[1];
     let n: usize = p(t[2]);
@@ -403,6 +451,10 @@ fn big(t: &[&str]) -> String {
             if arrays(&d) != before {
                 ok = false;
             }
+            // refused resets on the deep forest and on the compressed clone: nothing moves, the audit still passes
+            refused_reset(&mut d, usize::MAX, &mut ok);
+            refused_reset(&mut e, 1usize << 60, &mut ok);
+            checkpoint(&d, &naive, &mut ok, &mut worst);
             let mut f = DSU::new(n / 3);
             f.clone_from(&e);
             if arrays(&f) != arrays(&e) || !same_dbg(&f, &e) {
@@ -436,6 +488,13 @@ fn big(t: &[&str]) -> String {
                     let v = (rng.next() % m as u64) as usize;
                     if d.check(u, v) != naive.same(u, v) || d.size(u) != naive.members[naive.lab[u]].len() {
                         ok = false;
+                    }
+                    // now and then a reset that is refused: the answers after it are those of the same partition
+                    if k % 97 == 0 {
+                        refused_reset(&mut d, usize::MAX - (rng.next() % 3) as usize, &mut ok);
+                        if d.check(u, v) != naive.same(u, v) || d.size(v) != naive.members[naive.lab[v]].len() {
+                            ok = false;
+                        }
                     }
                 }
                 if k % 1024 == 0 {
